@@ -417,6 +417,179 @@ theorem rescale_voilut_nonint_refused (p : Params) (st : Stages) (m b : Rat) (vf
   simp only [folded, build, hp, hv, h1, h2, h3, Bool.false_eq_true, ↓reduceIte, foldVoiLut_nonint m b _ vfirst hni]
   split_ifs <;> rfl
 
+/-- no stage at all: the stored value -/
+theorem fold_identity (p : Params) (st : Stages) (s : Int)
+    (h1 : st.rwvm = false) (h2 : st.modality = false) (h3 : st.voi = false) (h4 : st.invert = false) :
+    folded p st s = ref p st s := by
+  simp [folded, build, ref, refModality, applyEff, h1, h2, h3, h4]
+
+/-- the sigmoid, with or without inversion, as the model evaluates it, against the standard's -/
+theorem sigmoid_out_eval (exp : Rat → Rat) (hexp : ∀ a, exp (-a) * exp a = 1) (hpos : ∀ a, 0 < exp a)
+    (c w lo hi x : Rat) (inv : Bool) :
+    ∃ y, windowOut .sigmoid c w lo hi inv x = .ok y ∧
+      y.eval exp = (if inv then invertOut lo hi (refSigmoid c w lo hi x) else refSigmoid c w lo hi x).eval exp := by
+  cases inv with
+  | false =>
+    simp only [windowOut, voiSigmoidArg, Bool.false_eq_true, ↓reduceIte]
+    refine ⟨_, rfl, ?_⟩
+    simp only [refSigmoid, Out.eval]
+    congr 3; ring_nf
+  | true =>
+    simp only [windowOut, voiSigmoidArg, ↓reduceIte]
+    refine ⟨_, rfl, ?_⟩
+    simp only [refSigmoid, invertOut, Out.eval]
+    have ha : -(4 / 1) * (c - x) / w = -(-4 * (x - c) / w) := by ring
+    rw [ha]
+    generalize (-4 * (x - c) / w) = a
+    have h1 := hexp a
+    have h2 := hpos a
+    have e : exp (-a) = 1 / exp a := by field_simp; linarith
+    rw [e]; field_simp; ring
+
+/-- the sigmoid's argument through a rescale -/
+theorem windowOut_sigmoid_fold (c w b m lo hi s : Rat) (hm : m ≠ 0) (hw : w ≠ 0) (inv : Bool) :
+    windowOut .sigmoid ((c - b) / m) (w / m) lo hi inv s = windowOut .sigmoid c w lo hi inv (m * s + b) := by
+  simp only [windowOut, fold_sigmoid_value c w b m s hm hw inv]
+
+/-- SIGMOID behind a rescale, with or without inversion, evaluated with any `exp` obeying the two laws -/
+theorem fold_sigmoid_eval (exp : Rat → Rat) (hexp : ∀ a, exp (-a) * exp a = 1) (hpos : ∀ a, 0 < exp a)
+    (p : Params) (st : Stages) (m b c w : Rat) (s : Int)
+    (hp : p.modality = .rescale m b) (hv : p.voi = .window .sigmoid c w) (hm : m ≠ 0) (hw : w ≠ 0)
+    (h1 : st.rwvm = false) (h2 : st.modality = true) (h3 : st.voi = true) :
+    Except.map (Out.eval exp) (folded p st s) = Except.map (Out.eval exp) (ref p st s) := by
+  have hfn : ("SIGMOID" == "LINEAR") = false := by decide
+  simp only [folded, build, ref, refModality, refVoi, applyEff, foldWindow, WinFn.name, hp, hv, h1, h2, h3,
+    hfn, Bool.false_eq_true, ↓reduceIte]
+  rw [windowOut_sigmoid_fold c w b m p.lo p.hi s hm hw]
+  obtain ⟨y, hy, he⟩ := sigmoid_out_eval exp hexp hpos c w p.lo p.hi (m * (s : Rat) + b) st.invert
+  rw [hy]
+  simp only [Except.map, he]
+
+/-- SIGMOID without modality transform -/
+theorem fold_sigmoid_unscaled_eval (exp : Rat → Rat) (hexp : ∀ a, exp (-a) * exp a = 1) (hpos : ∀ a, 0 < exp a)
+    (p : Params) (st : Stages) (c w : Rat) (s : Int)
+    (hv : p.voi = .window .sigmoid c w) (hw : w ≠ 0)
+    (h1 : st.rwvm = false) (h2 : st.modality = false) (h3 : st.voi = true) :
+    Except.map (Out.eval exp) (folded p st s) = Except.map (Out.eval exp) (ref p st s) := by
+  have hfn : ("SIGMOID" == "LINEAR") = false := by decide
+  simp only [folded, build, ref, refModality, refVoi, applyEff, foldWindow, WinFn.name, hv, h1, h2, h3,
+    hfn, Bool.false_eq_true, ↓reduceIte]
+  rw [windowOut_sigmoid_fold c w 0 1 p.lo p.hi s one_ne_zero hw]
+  obtain ⟨y, hy, he⟩ := sigmoid_out_eval exp hexp hpos c w p.lo p.hi (1 * (s : Rat) + 0) st.invert
+  rw [hy]
+  simp only [Except.map, he]
+  simp
+
+/-- SIGMOID applied to the entries of a modality LUT -/
+theorem fold_modlut_sigmoid_eval (exp : Rat → Rat) (hexp : ∀ a, exp (-a) * exp a = 1) (hpos : ∀ a, 0 < exp a)
+    (p : Params) (st : Stages) (mfirst : Int) (mdata : List Nat) (c w : Rat) (s : Int)
+    (hp : p.modality = .lut mfirst mdata) (hv : p.voi = .window .sigmoid c w)
+    (h1 : st.rwvm = false) (h2 : st.modality = true) (h3 : st.voi = true) :
+    Except.map (Out.eval exp) (folded p st s) = Except.map (Out.eval exp) (ref p st s) := by
+  simp only [folded, build, ref, refModality, refVoi, applyEff, hp, hv, h1, h2, h3, Bool.false_eq_true, ↓reduceIte]
+  obtain ⟨d, hd⟩ := mapExcept_of_total (fun (v : Nat) => windowOut .sigmoid c w p.lo p.hi st.invert ((v : Int) : Rat))
+    (fun a => windowOut_linear_total _ _ _ _ _ _ _) mdata
+  rw [hd]
+  simp only []
+  rw [applyLut_mapExcept _ _ _ hd, applyLut_eq_refLookup]
+  cases refLookup mdata mfirst s with
+  | error e => rfl
+  | ok v =>
+    simp only []
+    obtain ⟨y, hy, he⟩ := sigmoid_out_eval exp hexp hpos c w p.lo p.hi ((v : Int) : Rat) st.invert
+    rw [hy]
+    simp only [Except.map, he]
+
+/-- (congruence helper) -/
+theorem map_congr_of_eq {α β} (f : α → β) {x y : Except ErrKind α} (h : x = y) : Except.map f x = Except.map f y := by
+  rw [h]
+
+/-- **The whole pipeline clause in one statement.**  For every well-formed parameter set (`WellFormed`: output
+range lo < hi, window widths inside the standard's domain, non-zero slope in front of a window, non-constant VOI
+LUT, stages only where parameters exist), every choice of stages, every stored value `s` and every `exp` with
+`exp(-a) exp(a) = 1`, `exp > 0`: whenever the library builds a transform at all, applying it gives the value
+(or the refusal) of the standard's stages in order. -/
+theorem folded_eq_ref (exp : Rat → Rat) (hexp : ∀ a, exp (-a) * exp a = 1) (hpos : ∀ a, 0 < exp a)
+    (p : Params) (st : Stages) (s : Int) (wf : WellFormed p st) (e : Eff) (hb : build p st = .ok e) :
+    Except.map (Out.eval exp) (folded p st s) = Except.map (Out.eval exp) (ref p st s) := by
+  obtain ⟨hr, hmp, hvp, hwl, hwe, hws, hsl, hvl, hml⟩ := wf
+  cases h1 : st.rwvm with
+  | true =>
+    apply map_congr_of_eq
+    cases hrw : p.rwvm with
+    | none => simp [folded, build, ref, refRwvm, h1, hrw]
+    | linear first last m b => exact fold_rwvm_linear p st first last m b s hrw h1
+    | lut first data => exact fold_rwvm_lut p st first data s hrw h1
+  | false =>
+    cases h2 : st.modality with
+    | false =>
+      cases h3 : st.voi with
+      | false =>
+        apply map_congr_of_eq
+        cases h4 : st.invert with
+        | false => exact fold_identity p st s h1 h2 h3 h4
+        | true => exact fold_invert_identity p st s h1 h2 h3 h4
+      | true =>
+        cases hv : p.voi with
+        | none => exact absurd hv (hvp h3)
+        | window fn c w =>
+          cases fn with
+          | linear => exact map_congr_of_eq _ (fold_window_linear_unscaled p st c w s hv (hwl c w h3 hv) hr h1 h2 h3)
+          | exact => exact map_congr_of_eq _ (fold_window_exact_unscaled p st c w s hv (hwe c w h3 hv) hr h1 h2 h3)
+          | sigmoid => exact fold_sigmoid_unscaled_eval exp hexp hpos p st c w s hv (hws c w h3 hv) h1 h2 h3
+        | lut vfirst vdata =>
+          obtain ⟨mn, mx, hmn, hmx, hne⟩ := hvl vfirst vdata h3 hv
+          cases vdata with
+          | nil => simp [listMin] at hmn
+          | cons a t => exact map_congr_of_eq _ (fold_voilut_unscaled p st vfirst a t mn mx s hv hmn hmx hne h1 h2 h3)
+    | true =>
+      cases hp : p.modality with
+      | none => exact absurd hp (hmp h2)
+      | rescale m b =>
+        cases h3 : st.voi with
+        | false =>
+          apply map_congr_of_eq
+          cases h4 : st.invert with
+          | false => exact fold_rescale p st m b s hp h1 h2 h3 h4
+          | true => exact fold_invert_rescale p st m b s hp h1 h2 h3 h4
+        | true =>
+          cases hv : p.voi with
+          | none => exact absurd hv (hvp h3)
+          | window fn c w =>
+            have hm := hsl m b fn c w h2 hp h3 hv
+            cases fn with
+            | linear => exact map_congr_of_eq _ (fold_window_linear p st m b c w s hp hv hm (hwl c w h3 hv) hr h1 h2 h3)
+            | exact => exact map_congr_of_eq _ (fold_window_exact p st m b c w s hp hv hm (hwe c w h3 hv) hr h1 h2 h3)
+            | sigmoid => exact fold_sigmoid_eval exp hexp hpos p st m b c w s hp hv hm (hws c w h3 hv) h1 h2 h3
+          | lut vfirst vdata =>
+            obtain ⟨mn, mx, hmn, hmx, hne⟩ := hvl vfirst vdata h3 hv
+            cases vdata with
+            | nil => simp [listMin] at hmn
+            | cons a t => exact map_congr_of_eq _ (fold_rescale_voilut p st m b vfirst a t mn mx s e hp hv hmn hmx hne h1 h2 h3 hb)
+      | lut mfirst mdata =>
+        cases h3 : st.voi with
+        | false =>
+          apply map_congr_of_eq
+          cases h4 : st.invert with
+          | false => exact fold_modlut p st mfirst mdata s hp h1 h2 h3 h4
+          | true =>
+            cases mdata with
+            | nil => exact absurd rfl (hml mfirst [] h2 hp)
+            | cons a t => exact fold_invert_modlut p st mfirst a t s hp h1 h2 h3 h4
+        | true =>
+          cases hv : p.voi with
+          | none => exact absurd hv (hvp h3)
+          | window fn c w =>
+            cases fn with
+            | linear => exact map_congr_of_eq _ (fold_modlut_window_linear p st mfirst mdata c w s hp hv (hwl c w h3 hv) hr h1 h2 h3)
+            | exact => exact map_congr_of_eq _ (fold_modlut_window_exact p st mfirst mdata c w s hp hv (hwe c w h3 hv) hr h1 h2 h3)
+            | sigmoid => exact fold_modlut_sigmoid_eval exp hexp hpos p st mfirst mdata c w s hp hv h1 h2 h3
+          | lut vfirst vdata =>
+            obtain ⟨mn, mx, hmn, hmx, hne⟩ := hvl vfirst vdata h3 hv
+            cases vdata with
+            | nil => simp [listMin] at hmn
+            | cons a t => exact map_congr_of_eq _ (fold_modlut_voilut p st mfirst vfirst mdata a t mn mx s hp hv hmn hmx hne h1 h2 h3)
+
 /-! ## Clause: lookup-table objects return the table they were given -/
 
 /-- `LUT.__init__` accepts exactly: 0 <= first mapped value < 2^16, 1..65536 entries of uint8 / uint16. -/
@@ -606,5 +779,24 @@ example : stageOutcome ⟨.t, .n, .n, .n, .n, true⟩ .mono ⟨true, true, true,
 example : lutInit 5 8 [7, 8, 9] = .ok ⟨[3, 5, 8], [7, 8, 9, 0]⟩ := by decide +kernel
 example : selectWindow [600, 40] [1500, 400] (some ["LUNG", "SOFT"]) (.str "SOFT") = some (40, 400) := by decide +kernel
 example : selectWindow [600, 40] [1500, 400] none (.idx (-1)) = some (40, 400) := by decide +kernel
+
+/-- the umbrella theorem's hypotheses are satisfiable: the window witness is well formed and is built -/
+example : WellFormed exWindow exStages where
+  range := by decide +kernel
+  mod_present := by intro _ h; cases h
+  voi_present := by intro _ h; cases h
+  win_linear := by
+    intro c w _ h
+    have : w = 17 := by simp [exWindow] at h; exact h.2.symm
+    rw [this]; decide +kernel
+  win_exact := by intro c w _ h; simp [exWindow] at h
+  win_sigmoid := by intro c w _ h; simp [exWindow] at h
+  slope := by
+    intro m b fn c w _ h _ _
+    have : m = 2 := by simp [exWindow] at h; exact h.1.symm
+    rw [this]; decide +kernel
+  voi_lut := by intro f d _ h; simp [exWindow] at h
+  mod_lut := by intro f d _ h; simp [exWindow] at h
+example : (toOpt (build exWindow exStages)).isSome = true := by decide +kernel
 
 end HdVerif.C06
